@@ -122,5 +122,9 @@ class RawLinkLayer(LinkLayer):
                         self.receive_callback(m[14:])
                 except NotImplementedError as e:
                     print("Error decoding packet: " + str(e))
+                except Exception as e:  # pylint: disable=broad-except
+                    # Whatever a received frame makes the upper layers raise (malformed headers,
+                    # undecodable payloads, ...) the frame is dropped and reception goes on.
+                    print("Error processing packet, discarded: " + repr(e))
             except OSError:
                 break
